@@ -1,7 +1,7 @@
 (* C37 -- pinned property theorems (nothing else lives here).
-   The theorems quantify over ALL byte lists / code point lists.  The `Example`s at the end are of two kinds:
-   (1) non-vacuity of hypotheses, (2) published test vectors (FIPS 180-4 / NIST examples, RFC 4231, RFC 4648 section 10)
-   evaluated on the reference definitions: test vectors are TESTS of the reference definitions, not theorems. *)
+   The theorems quantify over ALL byte lists / code point lists.  The `Example`s at the end show that the hypotheses
+   are satisfiable.  The published test vectors (FIPS 180-4 / FIPS 202 examples, RFC 4231, RFC 8439, RFC 4648 section 10)
+   that validate the reference definitions are in Vectors.v: they are TESTS of the definitions, not theorems. *)
 From Coq Require Import String Arith NArith List Bool.
 From V Require Import C37.Model C37.Keccak C37.Chacha C37.Proofs C37.ShaProofs C37.ExtraProofs.
 Import ListNotations.
@@ -204,89 +204,3 @@ Proof. vm_compute. repeat split. Qed.
 Example ex_hex_both_cases : hex_decode (codes "00fFaB") = Some [0; 255; 171] /\ hex_decode (codes "abc") = None.
 Proof. vm_compute. split; reflexivity. Qed.
 
-(* ================================================================ test vectors (tests of the reference definitions) *)
-(* RFC 4648 section 10 *)
-Example b64_rfc4648 :
-  map (fun s => b64_encode true false (codes s)) ["" ; "f"; "fo"; "foo"; "foob"; "fooba"; "foobar"]%string =
-  map codes ["" ; "Zg=="; "Zm8="; "Zm9v"; "Zm9vYg=="; "Zm9vYmE="; "Zm9vYmFy"]%string.
-Proof. vm_compute. reflexivity. Qed.
-Example b64_charsets :
-  b64_encode true false [0xfb; 0xff] = codes "+/8=" /\ b64_encode true true [0xfb; 0xff] = codes "-_8=" /\
-  b64_encode false true [0xfb; 0xff] = codes "-_8" /\ b64_decode true false (codes "Zh==") = None.
-Proof. vm_compute. repeat split. Qed.
-Example utf8_examples :
-  utf8_encode [0x24; 0xA3; 0x20AC; 0x10348; 0x1F600] =
-  [0x24; 0xC2; 0xA3; 0xE2; 0x82; 0xAC; 0xF0; 0x90; 0x8D; 0x88; 0xF0; 0x9F; 0x98; 0x80].
-Proof. vm_compute. reflexivity. Qed.
-
-(* FIPS 180-4 / NIST example messages *)
-Example sha256_vectors :
-  hex_encode (sha256 (codes "abc")) = codes "ba7816bf8f01cfea414140de5dae2223b00361a396177a9cb410ff61f20015ad" /\
-  hex_encode (sha256 []) = codes "e3b0c44298fc1c149afbf4c8996fb92427ae41e4649b934ca495991b7852b855" /\
-  hex_encode (sha256 (codes nist2)) = codes "248d6a61d20638b8e5c026930c3e6039a33ce45964ff2167f6ecedd419db06c1" /\
-  hex_encode (sha256 (codes nist3)) = codes "cf5b16a778af8380036ce59e7b0492370b249b11e8f07a51afac45037afee9d1".
-Proof. vm_compute. repeat split. Qed.
-Example sha512_vectors :
-  hex_encode (sha512 (codes "abc")) = codes "ddaf35a193617abacc417349ae20413112e6fa4e89a97ea20a9eeee64b55d39a2192992a274fc1a836ba3c23a3feebbd454d4423643ce80e2a9ac94fa54ca49f" /\
-  hex_encode (sha512 []) = codes "cf83e1357eefb8bdf1542850d66d8007d620e4050b5715dc83f4a921d36ce9ce47d0d13c5d85f2b0ff8318d2877eec2f63b931bd47417a81a538327af927da3e" /\
-  hex_encode (sha512 (codes nist3)) = codes "8e959b75dae313da8cf4f72814fc143f8f7779c6eb9f7fa17299aeadb6889018501d289e4900f7e4331b99dec4b5433ac7d329eeb6dd26545e96e55b874be909".
-Proof. vm_compute. repeat split. Qed.
-Example sha384_vectors :
-  hex_encode (sha384 (codes "abc")) = codes "cb00753f45a35e8bb5a03d699ac65007272c32ab0eded1631a8b605a43ff5bed8086072ba1e7cc2358baeca134c825a7" /\
-  hex_encode (sha384 (codes nist3)) = codes "09330c33f71147e83d192fc782cd1b4753111b173b3b05d22fa08086e3b0f712fcc7c71a557e2db966c3e9fa91746039".
-Proof. vm_compute. repeat split. Qed.
-Example sha512_256_vectors :
-  hex_encode (sha512_256 (codes "abc")) = codes "53048e2681941ef99b2e29b76b4c7dabe4c2d0c634fc6d46e0e2f13107e7af23" /\
-  hex_encode (sha512_256 (codes nist3)) = codes "3928e184fb8690f840da3988121d31be65cb9d3ef83ee6146feac861e19b563a".
-Proof. vm_compute. repeat split. Qed.
-(* FIPS 180-4 5.3.6: the SHA-512/256 initial value used by the model is the one the IV generation function produces *)
-Example iv512_256_generated : iv512_t_gen name_sha512_256 = iv512_256.
-Proof. vm_compute. reflexivity. Qed.
-
-(* RFC 4231 test cases 1, 2 and 6 (key shorter than, and longer than, the block) *)
-Example hmac_sha256_rfc4231 :
-  hex_encode (hmac sha256 64 (repeat 0x0b 20) (codes "Hi There")) = codes "b0344c61d8db38535ca8afceaf0bf12b881dc200c9833da726e9376c2e32cff7" /\
-  hex_encode (hmac sha256 64 (codes "Jefe") (codes "what do ya want for nothing?")) = codes "5bdcc146bf60754e6a042426089575c75a003f089d2739839dec58b964ec3843" /\
-  hex_encode (hmac sha256 64 (repeat 0xaa 131) (codes "Test Using Larger Than Block-Size Key - Hash Key First")) = codes "60e431591ee0b67f0d8a26aacbf5b77f8e0bc6213728c5140546040f0ee37f54".
-Proof. vm_compute. repeat split. Qed.
-Example hmac_sha384_rfc4231 :
-  hex_encode (hmac sha384 128 (repeat 0x0b 20) (codes "Hi There")) = codes "afd03944d84895626b0825f4ab46907f15f9dadbe4101ec682aa034c7cebc59cfaea9ea9076ede7f4af152e8b2fa9cb6" /\
-  hex_encode (hmac sha384 128 (repeat 0xaa 131) (codes "Test Using Larger Than Block-Size Key - Hash Key First")) = codes "4ece084485813e9088d2c63a041bc5b44f9ef1012a2b588f3cd11f05033ac4c60c2ef6ab4030fe8296248df163f44952".
-Proof. vm_compute. repeat split. Qed.
-Example hmac_sha512_rfc4231 :
-  hex_encode (hmac sha512 128 (repeat 0x0b 20) (codes "Hi There")) = codes "87aa7cdea5ef619d4ff0b4241a1d6cb02379f4e2ce4ec2787ad0b30545e17cdedaa833b7d6b8a702038b274eaea3f4e4be9d914eeb61f1702e696c203a126854" /\
-  hex_encode (hmac sha512 128 (repeat 0xaa 131) (codes "Test Using Larger Than Block-Size Key - Hash Key First")) = codes "80b24263c7c1a3ebb71493c1dd7be8b49b46d1f41b4aeec1121b013783f8f3526b56d037e05f2598bd0fd2215d6a1e5295e64f73f63f0aec8b915a985d786598".
-Proof. vm_compute. repeat split. Qed.
-
-(* FIPS 202 example values: "abc", the empty message, and the 1600-bit message 0xA3 x 200 (two or three blocks) *)
-Example sha3_224_vectors :
-  hex_encode (sha3_224 (codes "abc")) = codes "e642824c3f8cf24ad09234ee7d3c766fc9a3a5168d0c94ad73b46fdf" /\
-  hex_encode (sha3_224 []) = codes "6b4e03423667dbb73b6e15454f0eb1abd4597f9a1b078e3f5b5a6bc7" /\
-  hex_encode (sha3_224 (repeat 0xa3 200)) = codes "9376816aba503f72f96ce7eb65ac095deee3be4bf9bbc2a1cb7e11e0".
-Proof. vm_compute. repeat split. Qed.
-Example sha3_256_vectors :
-  hex_encode (sha3_256 (codes "abc")) = codes "3a985da74fe225b2045c172d6bd390bd855f086e3e9d525b46bfe24511431532" /\
-  hex_encode (sha3_256 []) = codes "a7ffc6f8bf1ed76651c14756a061d662f580ff4de43b49fa82d80a4b80f8434a" /\
-  hex_encode (sha3_256 (repeat 0xa3 200)) = codes "79f38adec5c20307a98ef76e8324afbfd46cfd81b22e3973c65fa1bd9de31787".
-Proof. vm_compute. repeat split. Qed.
-Example sha3_384_vectors :
-  hex_encode (sha3_384 (codes "abc")) = codes "ec01498288516fc926459f58e2c6ad8df9b473cb0fc08c2596da7cf0e49be4b298d88cea927ac7f539f1edf228376d25" /\
-  hex_encode (sha3_384 []) = codes "0c63a75b845e4f7d01107d852e4c2485c51a50aaaa94fc61995e71bbee983a2ac3713831264adb47fb6bd1e058d5f004" /\
-  hex_encode (sha3_384 (repeat 0xa3 200)) = codes "1881de2ca7e41ef95dc4732b8f5f002b189cc1e42b74168ed1732649ce1dbcdd76197a31fd55ee989f2d7050dd473e8f".
-Proof. vm_compute. repeat split. Qed.
-Example sha3_512_vectors :
-  hex_encode (sha3_512 (codes "abc")) = codes "b751850b1a57168a5693cd924b6b096e08f621827444f70d884f5d0240d2712e10e116e9192af3c91a7ec57647e3934057340b4cf408d5a56592f8274eec53f0" /\
-  hex_encode (sha3_512 []) = codes "a69f73cca23a9ac5c8b567dc185a756e97c982164fe25859e0d1dcc1475c80a615b2123af1f5f94c11e3e9402c3ac558f500199d95b6d3e301758586281dcd26" /\
-  hex_encode (sha3_512 (repeat 0xa3 200)) = codes "e76dfad22084a8b1467fcf2ffa58361bec7628edf5f3fdc0e4805dc48caeeca81b7c13c30adf52a3659584739a2df46be589c51ca1a4a8416df6545a1ce8ba00".
-Proof. vm_compute. repeat split. Qed.
-
-(* RFC 8439: 2.5.2 (Poly1305), 2.8.2 (AEAD_CHACHA20_POLY1305: ciphertext and tag) *)
-Example poly1305_rfc8439 :
-  hex_encode (poly1305 (unhex "85d6be7857556d337f4452fe42d506a80103808afb0db2fd4abff6af4149f51b")
-                       (codes "Cryptographic Forum Research Group")) = codes "a8061dc1305136c6c22b8baf0c0127a9".
-Proof. vm_compute. reflexivity. Qed.
-Example aead_rfc8439 :
-  aead_encrypt rfc8439_key rfc8439_nonce rfc8439_aad (codes sunscreen) =
-  (unhex "d31a8d34648e60db7b86afbc53ef7ec2a4aded51296e08fea9e2b5a736ee62d63dbea45e8ca9671282fafb69da92728b1a71de0a9e060b2905d6a5b67ecd3b3692ddbd7f2d778b8c9803aee328091b58fab324e4fad675945585808b4831d7bc3ff4def08e4b7a9de576d26586cec64b6116",
-   unhex "1ae10b594f09e26a7e902ecbd0600691").
-Proof. vm_compute. reflexivity. Qed.
